@@ -204,6 +204,10 @@ class NpProxy:
     def _alloc(self, fn, *a, **k):
         if ALLOC_OBJECT:
             k = dict(k)
+            pos = 2 if fn is _np.full else 1          # dtype given positionally: np.zeros(shape, complex)
+            if len(a) > pos and "dtype" not in k:
+                k["dtype"] = a[pos]
+                a = a[:pos]
             dt = k.get("dtype", float)
             if dt in (float, complex, _np.float64, _np.complex128, _np.complex64, None):
                 k["dtype"] = object
